@@ -132,4 +132,9 @@ def regenerate(with_objects=True):
               "From Coq Require Import String List.", "Import ListNotations.", "Local Open Scope string_scope.", "",
               "Definition syscall_inventory : list (string * string) :=\n  [" + ";\n   ".join('("%s", "%s")' % p for p in inv) + "]."]
         V.write_if_changed(os.path.join(V.COQ, "Generated", "Syscalls.v"), "\n".join(sy) + "\n")
+        gl = writable_globals()
+        g = ["(* GENERATED from the objects compiled from /repo's working tree (objdump -t: objects in .data/.bss). Do not edit. *)",
+             "From Coq Require Import String List.", "Import ListNotations.", "Local Open Scope string_scope.", "",
+             "Definition writable_globals : list (string * string) :=\n  [" + ";\n   ".join('("%s", "%s")' % p for p in gl) + "]."]
+        V.write_if_changed(os.path.join(V.COQ, "Generated", "Globals.v"), "\n".join(g) + "\n")
     return c
